@@ -10,6 +10,7 @@ import (
 	"io"
 	"net"
 	"os"
+	"sort"
 	"sync"
 	"time"
 
@@ -39,7 +40,26 @@ type Net struct {
 	// DialFault, when set, is consulted for every dial (scheduler-owned state only).
 	DialFault func(addr string) error
 	// Tag is stamped on every new connection (incarnation id).
-	Tag int
+	Tag    int
+	events []string
+}
+
+// FlushEvents writes the dial/close events gathered since the last call into the event log, sorted: several tool
+// goroutines may dial or close within one quiescent period and their relative order is the Go runtime's choice.
+func (n *Net) FlushEvents() {
+	n.mu.Lock()
+	ev := n.events
+	n.events = nil
+	n.mu.Unlock()
+	if len(ev) == 0 {
+		return
+	}
+	sort.Strings(ev)
+	if w := simrt.Cur(); w != nil {
+		for _, e := range ev {
+			w.Logf("%s", e)
+		}
+	}
 }
 
 var cur *Net
@@ -82,10 +102,9 @@ func (n *Net) dial(addr string) (*SimConn, error) {
 	c := &SimConn{ID: n.nextID, RemoteAddress: addr, Tag: n.Tag}
 	c.cond = sync.NewCond(&c.mu)
 	n.Conns = append(n.Conns, c)
-	if w := simrt.Cur(); w != nil {
-		// logged under the lock: concurrent dials (parallel replay workers) must appear in id order
-		w.Logf("dial c%d -> %s", c.ID, addr)
-	}
+	// connection ids are handed out in the order the dialling goroutines happen to arrive: they never
+	// appear in the event log. The scheduler flushes these events in canonical (sorted) order at quiescence.
+	n.events = append(n.events, "dial -> "+addr)
 	n.mu.Unlock()
 	a.Accept(c)
 	return c, nil
@@ -130,7 +149,8 @@ type SimConn struct {
 	ID            int
 	RemoteAddress string
 	Tag           int
-	Owner         any // server-side session, set by the Acceptor
+	Owner         any    // server-side session, set by the Acceptor
+	Label         string // canonical name given by the server when it executes the connection's first request
 
 	mu   sync.Mutex
 	cond *sync.Cond
@@ -216,9 +236,16 @@ func (c *SimConn) Close() error {
 		c.rdT.Stop()
 	}
 	c.cond.Broadcast()
+	lbl := c.Label
 	c.mu.Unlock()
-	if w := simrt.Cur(); w != nil {
-		w.Logf("close c%d", c.ID)
+	if n := Cur(); n != nil && c.RemoteAddress != "local" {
+		n.mu.Lock()
+		if lbl != "" {
+			n.events = append(n.events, "close "+lbl)
+		} else {
+			n.events = append(n.events, "close (no request executed) -> "+c.RemoteAddress)
+		}
+		n.mu.Unlock()
 	}
 	return nil
 }
